@@ -4,6 +4,8 @@ From Coq Require Import List ZArith String Bool.
 From Inovesa Require Import Model.Wisdom.
 Import ListNotations.
 Local Open Scope string_scope.
+(* the one constructor FSPath(std::string) is `: _path(..) { validateDirectory(_path); }` *)
+Definition fspath_ctor_validates : bool := true.
 (* FSPath::append is `_path /= path; validateDirectory(_path); return *this;` *)
 Definition fspath_append_validates : bool := true.
 (* FSPath::validateDirectory(p) creates p.parent_path() (p itself when it ends in '/') when p does not exist *)
